@@ -12,16 +12,20 @@ import (
 func claimFacts(ctx *Ctx, b *strings.Builder) {
 	_, f := parseFile(ctx.Repo, "agent/agent.go")
 	atomic, rollback := false, false
+	methods := map[string]*ast.FuncDecl{}
 	for _, d := range f.Decls {
-		fd, ok := d.(*ast.FuncDecl)
-		if !ok || fd.Body == nil || fd.Name.Name != "Start" {
-			continue
+		if fd, ok := d.(*ast.FuncDecl); ok && fd.Body != nil {
+			if typ, _ := recvName(fd); typ == "Agent" {
+				methods[fd.Name.Name] = fd
+			}
 		}
-		typ, recv := recvName(fd)
-		if typ != "Agent" {
-			continue
-		}
+	}
+	// stretch: does the statement list test a.started and set it to true within one stretch that
+	// holds a.mu (Lock ... Unlock, or Lock; defer Unlock to the end of the function)
+	stretch := func(fd *ast.FuncDecl) bool {
+		_, recv := recvName(fd)
 		isStarted := func(e ast.Expr) bool { return isSel(e, recv, "started") }
+		found := false
 		held, tested, set := false, false, false
 		for _, st := range fd.Body.List {
 			if es, ok := st.(*ast.ExprStmt); ok {
@@ -33,7 +37,7 @@ func claimFacts(ctx *Ctx, b *strings.Builder) {
 					if isSel(c.Fun, recv, "mu", "Unlock") && held {
 						held = false
 						if tested && set {
-							atomic = true
+							found = true
 						}
 						tested, set = false, false
 						continue
@@ -44,10 +48,6 @@ func claimFacts(ctx *Ctx, b *strings.Builder) {
 				continue // held to the end of the function
 			}
 			if !held {
-				// a test or a set outside the first stretch breaks the shape
-				if is, ok := st.(*ast.IfStmt); ok && isStarted(is.Cond) {
-					tested = false
-				}
 				continue
 			}
 			if is, ok := st.(*ast.IfStmt); ok && isStarted(is.Cond) {
@@ -60,18 +60,78 @@ func claimFacts(ctx *Ctx, b *strings.Builder) {
 			}
 		}
 		if held && tested && set { // Lock; defer Unlock; test; set
-			atomic = true
+			found = true
 		}
-		ast.Inspect(fd.Body, func(n ast.Node) bool {
-			if as, ok := n.(*ast.AssignStmt); ok && len(as.Lhs) == 1 && isStarted(as.Lhs[0]) {
-				if id, ok := as.Rhs[0].(*ast.Ident); ok && id.Name == "false" {
-					rollback = true
+		return found
+	}
+	// clears: does the function set a.started = false (anywhere, closures included)
+	var clears func(n ast.Node, recv string, depth int) bool
+	clears = func(n ast.Node, recv string, depth int) bool {
+		found := false
+		ast.Inspect(n, func(x ast.Node) bool {
+			switch v := x.(type) {
+			case *ast.AssignStmt:
+				if len(v.Lhs) == 1 && isSel(v.Lhs[0], recv, "started") {
+					if id, ok := v.Rhs[0].(*ast.Ident); ok && id.Name == "false" {
+						found = true
+					}
+				}
+			case *ast.CallExpr: // a helper method of the agent that does it
+				if se, ok := v.Fun.(*ast.SelectorExpr); ok && depth == 0 {
+					if id, ok := se.X.(*ast.Ident); ok && id.Name == recv {
+						if m := methods[se.Sel.Name]; m != nil && m.Name.Name != "Start" {
+							_, mr := recvName(m)
+							if clears(m.Body, mr, 1) {
+								found = true
+							}
+						}
+					}
 				}
 			}
 			return true
 		})
+		return found
 	}
-	b.WriteString("(* agent/agent.go Start: test-and-set of a.started in one stretch holding a.mu; a failed start clears it *)\n")
+	if fd := methods["Start"]; fd != nil {
+		_, recv := recvName(fd)
+		atomic = stretch(fd)
+		if !atomic {
+			// or the claim is a helper method doing the test-and-set, whose refusal makes Start
+			// return before anything else is done: if !a.claim() { return ... }
+			for _, st := range fd.Body.List {
+				is, ok := st.(*ast.IfStmt)
+				if !ok || is.Init != nil {
+					continue
+				}
+				ue, ok := is.Cond.(*ast.UnaryExpr)
+				if !ok || ue.Op.String() != "!" {
+					continue
+				}
+				call, ok := ue.X.(*ast.CallExpr)
+				if !ok {
+					continue
+				}
+				se, ok := call.Fun.(*ast.SelectorExpr)
+				if !ok {
+					continue
+				}
+				if id, ok := se.X.(*ast.Ident); !ok || id.Name != recv {
+					continue
+				}
+				m := methods[se.Sel.Name]
+				returns := len(is.Body.List) > 0
+				if returns {
+					_, returns = is.Body.List[len(is.Body.List)-1].(*ast.ReturnStmt)
+				}
+				if m != nil && stretch(m) && returns {
+					atomic = true
+				}
+				break // only the first such test can be the claim
+			}
+		}
+		rollback = clears(fd.Body, recv, 0)
+	}
+	b.WriteString("(* agent/agent.go Start: test-and-set of a.started in one stretch holding a.mu (in Start or in the helper whose refusal ends it); a failed start clears it *)\n")
 	fmt.Fprintf(b, "Definition agent_start_test_and_set_atomic : bool := %v.\n", atomic)
 	fmt.Fprintf(b, "Definition agent_start_gives_claim_back : bool := %v.\n\n", rollback)
 }
